@@ -125,7 +125,8 @@ Labels(e) ==
     [] e.sp = "so3" /\ e.op = "sampler" -> So3Sampler_(e)
     [] e.sp = "so3" /\ e.op = "conesampler" ->
          IF e.nearedge THEN {} ELSE
-            L(e.incone /\ (e.words # 4 \/ ~e.parallel), "C14/cone") \cup L(~e.incone /\ e.words # 8, "C14/cone") \cup L(~e.insat, "C14/cone")
+            L(e.incone /\ (e.words # 4 \/ ~e.parallel), "C14/cone")
+            \cup L(~e.incone /\ (e.words # 8 \/ ~e.fallback), "C14/cone") \cup L(~e.insat, "C14/cone")
     [] e.sp = "cmp" /\ e.op = "laws" ->
          L(~e.dist, "C13/distance") \cup L(~e.interp \/ ~e.enforce \/ ~e.sat, "C13/componentwise")
     [] e.sp = "cmp" /\ e.op = "sample" ->
